@@ -248,72 +248,80 @@ def gen_rc(rng, n):
     cases = []
     for i in range(n):
         ty = rng.choice(ALL_TYPES)
-        dim, isf = _dim(ty), ty[2] == 'f'
-        mininl = 2 * (3 if dim == 2 else 4)
-        npairs = rng.choice([1, mininl - 1, mininl, mininl + 1]) if rng.chance(0.25) else rng.int(1, 40)
-        if rng.chance(0.5):
-            tg = list(range(npairs))
-            rng.shuffle(tg)
-        else:
-            m = rng.int(1, npairs)
-            tg = [rng.below(m) for _ in range(npairs)]
-        # distinct (target, distance) keys: std::sort leaves equal keys in unspecified order
-        ds = list(range(1, npairs + 1))
-        rng.shuffle(ds)
-        dist = [d / 1024.0 for d in ds]
-        if rng.chance(0.3):
-            dist = [0.0 if rng.chance(0.5) else x for x in dist]
-            seen = set()
-            for j in range(npairs):
-                while (tg[j], dist[j]) in seen:
-                    dist[j] += 1.0 / 1024.0
-                seen.add((tg[j], dist[j]))
-        lines = ['rc.load %s %d %s' % (ty, npairs, ' '.join('%d %d %s' % (j, tg[j], D(dist[j])) for j in range(npairs)))]
-        sigma = rng.choice([0.25, 0.5, 0.125, 1.0]) if rng.chance(0.8) else rng.uniform(0.05, 1.0)
-        dyadic = sigma in (0.25, 0.5, 0.125, 1.0)
-        q = 16.0 if isf else 1024.0
-        rel = 2.0 ** -12 if isf else 2.0 ** -30
-        rounds = rng.int(2, 6)
-        prev = None
-        for r in range(rounds):
-            mode = rng.below(8)
-            vecs = []
-            if mode == 6 and prev is not None:      # same set scaled: same count, better / worse rmse
-                f = rng.choice([0.5, 2.0, 1.0])
-                vecs = [[c * f for c in v] for v in prev]
-            else:
-                for j in range(npairs):
-                    v = [0.0] * dim
-                    m2 = rng.below(10) if mode != 7 else 9
-                    if mode == 5:                    # everything exactly at rmse == sigma
-                        v[rng.below(dim)] = sigma if dyadic else round(sigma * q) / q
-                    elif m2 < 5:                     # inlier, a few bits per component (sums exact in any order)
-                        lim = max(1, int(sigma * q))
-                        v = [rng.int(-lim, lim) / q for _ in range(dim)]
-                    elif m2 < 7 and dyadic:          # on / next to the 3 sigma threshold, single component
-                        v[rng.below(dim)] = 3 * sigma * rng.choice([1.0, 1.0 + rel, 1.0 - rel, -1.0, -(1.0 - rel)])
-                    elif m2 < 8:                     # gross outlier
-                        v = [rng.int(int(4 * sigma * q), int(7.9 * q)) / q * rng.choice([1, -1]) for _ in range(dim)]
-                    else:                            # zero error
-                        pass
-                    vecs.append(v)
-            prev = vecs
-            toks = []
-            for v in vecs:
-                if isf:
-                    v = [to_f32(c) for c in v]
-                    sq = [to_f32(c * c) for c in v]
-                    e = sq[0]
-                    for s_ in sq[1:]:
-                        e = to_f32(e + s_)
-                else:
-                    e = 0.0
-                    for c in v:
-                        e = e + c * c
-                toks += [D(c) for c in v] + [D(e)]
-            lines.append('rc.count %s %s' % (D(sigma), ' '.join(toks)))
-        cases.append(_case('rc-%s-%d' % (ty, i), lines, ty=ty, mininl=mininl))
+        lines = []
+        # one to three loads on the same model object: the consensus of an earlier load must not survive
+        for _ in range(rng.choice([1, 1, 2, 3])):
+            lines += _rc_block(rng, ty)
+        cases.append(_case('rc-%s-%d' % (ty, i), lines, ty=ty))
     return cases
+
+
+def _rc_block(rng, ty):
+    dim, isf = _dim(ty), ty[2] == 'f'
+    mininl = 2 * (3 if dim == 2 else 4)
+    npairs = rng.choice([1, mininl - 1, mininl, mininl + 1]) if rng.chance(0.25) else rng.int(1, 40)
+    if rng.chance(0.5):
+        tg = list(range(npairs))
+        rng.shuffle(tg)
+    else:
+        m = rng.int(1, npairs)
+        tg = [rng.below(m) for _ in range(npairs)]
+    # distinct (target, distance) keys: std::sort leaves equal keys in unspecified order
+    ds = list(range(1, npairs + 1))
+    rng.shuffle(ds)
+    dist = [d / 1024.0 for d in ds]
+    if rng.chance(0.3):
+        dist = [0.0 if rng.chance(0.5) else x for x in dist]
+        seen = set()
+        for j in range(npairs):
+            while (tg[j], dist[j]) in seen:
+                dist[j] += 1.0 / 1024.0
+            seen.add((tg[j], dist[j]))
+    lines = ['rc.load %s %d %s' % (ty, npairs, ' '.join('%d %d %s' % (j, tg[j], D(dist[j])) for j in range(npairs)))]
+    sigma = rng.choice([0.25, 0.5, 0.125, 1.0]) if rng.chance(0.8) else rng.uniform(0.05, 1.0)
+    dyadic = sigma in (0.25, 0.5, 0.125, 1.0)
+    q = 16.0 if isf else 1024.0
+    rel = 2.0 ** -12 if isf else 2.0 ** -30
+    rounds = rng.int(2, 6)
+    prev = None
+    for r in range(rounds):
+        mode = rng.below(8)
+        vecs = []
+        if mode == 6 and prev is not None:      # same set scaled: same count, better / worse rmse
+            f = rng.choice([0.5, 2.0, 1.0])
+            vecs = [[c * f for c in v] for v in prev]
+        else:
+            for j in range(npairs):
+                v = [0.0] * dim
+                m2 = rng.below(10) if mode != 7 else 9
+                if mode == 5:                    # everything exactly at rmse == sigma
+                    v[rng.below(dim)] = sigma if dyadic else round(sigma * q) / q
+                elif m2 < 5:                     # inlier, a few bits per component (sums exact in any order)
+                    lim = max(1, int(sigma * q))
+                    v = [rng.int(-lim, lim) / q for _ in range(dim)]
+                elif m2 < 7 and dyadic:          # on / next to the 3 sigma threshold, single component
+                    v[rng.below(dim)] = 3 * sigma * rng.choice([1.0, 1.0 + rel, 1.0 - rel, -1.0, -(1.0 - rel)])
+                elif m2 < 8:                     # gross outlier
+                    v = [rng.int(int(4 * sigma * q), int(7.9 * q)) / q * rng.choice([1, -1]) for _ in range(dim)]
+                else:                            # zero error
+                    pass
+                vecs.append(v)
+        prev = vecs
+        toks = []
+        for v in vecs:
+            if isf:
+                v = [to_f32(c) for c in v]
+                sq = [to_f32(c * c) for c in v]
+                e = sq[0]
+                for s_ in sq[1:]:
+                    e = to_f32(e + s_)
+            else:
+                e = 0.0
+                for c in v:
+                    e = e + c * c
+            toks += [D(c) for c in v] + [D(e)]
+        lines.append('rc.count %s %s' % (D(sigma), ' '.join(toks)))
+    return lines
 
 
 def gen_filter(rng, n):
@@ -442,10 +450,10 @@ def gen_synth(rng, tier):
 def gen_cases(rng, tier):
     q = tier == 'quick'
     cases = []
-    cases += gen_rit(rng.fork(), 400 if q else 20000)
-    cases += gen_script(rng.fork(), 500 if q else 20000)
-    cases += gen_rc(rng.fork(), 300 if q else 10000)
-    cases += gen_filter(rng.fork(), 300 if q else 10000)
+    cases += gen_rit(rng.fork(), 400 if q else 40000)
+    cases += gen_script(rng.fork(), 500 if q else 60000)
+    cases += gen_rc(rng.fork(), 300 if q else 20000)
+    cases += gen_filter(rng.fork(), 300 if q else 20000)
     cases += gen_icp(rng.fork(), tier)
     cases += gen_synth(rng.fork(), tier)
     return cases
